@@ -55,6 +55,10 @@
 From Kit Require Export C09.Spec.
 Open Scope Z_scope.
 
+(* the configuration NewCoalescing falls back to when the options are nil:
+   initialDelay := time.Millisecond * 500, maxDelay := time.Second * 5, no MaxPendingEvents *)
+Definition default_cfg : cfg := mkcfg 500000000 5000000000 None.
+
 Definition float_exact (c : cfg) : Prop := 2 * maxd c <= 2 ^ 53.
 Definition float_exactb (c : cfg) : bool := 2 * maxd c <=? 2 ^ 53.
 
